@@ -154,6 +154,9 @@ func (sc *Scope) ident(name string) Val {
 	if v, ok := sc.vars[name]; ok {
 		return sc.deref(v)
 	}
+	if v, ok := sc.x.aliases[name]; ok {
+		return sc.deref(v)
+	}
 	if fr := sc.frame; fr != nil {
 		if name == "$iter" && sc.header != nil {
 			// number of completed iterations of a range loop (its hidden index + 1)
@@ -169,7 +172,18 @@ func (sc *Scope) ident(name string) Val {
 					return Val{T: sc.x.get(sc.st, mapIterKey(nx.Iter)), Ty: types.Typ[types.Int]}
 				}
 			}
+			// an index loop (for i := 0; ...; i++): its counter, if it is the only integer variable the loop re-assigns
+			if phi := uniqueIntPhi(sc.header); phi != nil {
+				return Val{T: sc.valueOf(fr, phi), Ty: phi.Type()}
+			}
 			sc.fail("$iter used outside a range loop")
+		}
+		if name == "$ivar" && sc.header != nil {
+			// the loop's induction variable, whatever it is called: the only integer variable the loop re-assigns
+			if phi := uniqueIntPhi(sc.header); phi != nil {
+				return Val{T: sc.valueOf(fr, phi), Ty: phi.Type()}
+			}
+			sc.fail("$ivar: the loop does not have exactly one integer variable")
 		}
 		if sc.header != nil {
 			// in a loop invariant a variable that the loop re-assigns (also a parameter) denotes its current value
@@ -195,7 +209,8 @@ func (sc *Scope) ident(name string) Val {
 			}
 		}
 		for i, f := range fr.fn.FreeVars {
-			if f.Name() == name && i < len(fr.fv) {
+			// a captured variable, by its source name or by position (fv0, fv1, ...: robust against renaming)
+			if (f.Name() == name || name == fmt.Sprintf("fv%d", i)) && i < len(fr.fv) {
 				return sc.deref(Val{T: fr.fv[i], Ty: f.Type(), ptrToVar: true})
 			}
 		}
@@ -896,9 +911,12 @@ func (sc *Scope) lvalue(e Expr) (string, types.Type) {
 		if v, ok := sc.vars[e.Name]; ok && v.ptrToVar {
 			return v.T, v.Ty.Underlying().(*types.Pointer).Elem()
 		}
+		if v, ok := sc.x.aliases[e.Name]; ok {
+			return v.T, v.Ty.Underlying().(*types.Pointer).Elem()
+		}
 		if fr := sc.frame; fr != nil {
 			for i, f := range fr.fn.FreeVars {
-				if f.Name() == e.Name && i < len(fr.fv) {
+				if (f.Name() == e.Name || e.Name == fmt.Sprintf("fv%d", i)) && i < len(fr.fv) {
 					return fr.fv[i], f.Type().Underlying().(*types.Pointer).Elem()
 				}
 			}
@@ -1150,4 +1168,26 @@ func paramCell(fn *ssa.Function, p *ssa.Parameter) *ssa.Alloc {
 		}
 	}
 	return nil
+}
+
+// uniqueIntPhi: the only integer-typed phi of a loop header that stands for a source variable (not the hidden range index)
+func uniqueIntPhi(h *ssa.BasicBlock) *ssa.Phi {
+	var found *ssa.Phi
+	for _, in := range h.Instrs {
+		phi, ok := in.(*ssa.Phi)
+		if !ok {
+			break
+		}
+		if phi.Comment == "rangeindex" {
+			continue
+		}
+		if _, isInt := basicInt(phi.Type()); !isInt {
+			continue
+		}
+		if found != nil {
+			return nil
+		}
+		found = phi
+	}
+	return found
 }
